@@ -104,7 +104,11 @@ func c02Desc(si int, global bool) vAPIDesc {
 	d := vAPIDesc{basePath: "/", secDefs: map[string]*spec.SecurityScheme{
 		"a": spec.APIKeyAuth("X-A", "header"), "b": spec.APIKeyAuth("X-B", "header"),
 		"c": spec.APIKeyAuth("X-C", "header"), "u": spec.APIKeyAuth("X-U", "header")}}
-	op := vOp{method: "GET", path: "/secure", id: "secureOp", success: 200}
+	// the operation also declares a required query parameter: a request that is
+	// wrong in that respect is still refused for its credentials first
+	must := spec.Parameter{}
+	must.Name, must.In, must.Type, must.Required = "must", "query", "string", true
+	op := vOp{method: "GET", path: "/secure", id: "secureOp", success: 200, params: []spec.Parameter{must}}
 	if global {
 		d.security = reqs
 	} else {
@@ -178,13 +182,30 @@ func VerifC02Security() {
 	if withAuthz {
 		c02S.authz = zv.Choose("authz", 3)
 	}
+	otherwiseValid := zv.Choose("request-otherwise-valid", 2) == 1
 	r := &http.Request{Method: "GET", Header: http.Header{}, URL: &url.URL{Path: "/secure"}}
+	if otherwiseValid {
+		r.URL.RawQuery = "must=1"
+	}
 	rw := vNewWriter()
 	su.handler.ServeHTTP(rw, r)
 
 	admitted, anonymous, anyReject, princ, admitScopes := c02Oracle(si)
 	authzDenied := admitted && withAuthz && c02S.authz != 0
 
+	if admitted && !authzDenied && !otherwiseValid {
+		// admitted, but the request is wrong otherwise: now that is what is reported
+		zv.Reach("admitted-but-invalid")
+		zv.Assert("handler-does-not-run-on-an-invalid-request", c02S.handlerRan == 0)
+		ce, is422 := vRec.servedErr.(*errors.CompositeError)
+		zv.Assert("binding-error-reported-after-admission", vRec.errCount == 1 && is422 && ce.Code() == 422)
+		return
+	}
+	if !(admitted && !authzDenied) {
+		// refused: whatever else is wrong with the request, the refusal is the security one
+		_, is422 := vRec.servedErr.(*errors.CompositeError)
+		zv.Assert("refusal-precedes-parameter-binding", !is422)
+	}
 	if admitted && !authzDenied {
 		zv.Reach("admitted")
 		zv.Assert("handler-runs-when-an-alternative-is-satisfied", c02S.handlerRan == 1)
@@ -287,7 +308,7 @@ func VerifC02Authorize() {
 	for _, n := range []string{"a", "b", "c"} {
 		c02S.outcome[n] = zv.Choose("outcome-"+n, 4)
 	}
-	r := &http.Request{Method: "GET", Header: http.Header{}, URL: &url.URL{Path: "/secure"}}
+	r := &http.Request{Method: "GET", Header: http.Header{}, URL: &url.URL{Path: "/secure", RawQuery: "must=1"}}
 	route, r2, ok := su.ctx.RouteInfo(r)
 	zv.Assert("route-found", ok && route != nil)
 	if !ok {
